@@ -191,7 +191,10 @@ func applyWop(w *wsutil.Writer, dst *recWriter, op string) (int, error) {
 		return w.WriteThrough(data)
 	case 'r':
 		spec := strings.ReplaceAll(p[2], "+", ",")
-		n64, err := w.ReadFrom(newChunkReader(data, spec, "eof"))
+		if len(p) > 3 { // r<n>/<seed>/<spec>/<dress>: the source behind another concrete reader type (io.WriterTo ...)
+			spec = p[3] + "/" + spec
+		}
+		n64, err := w.ReadFrom(newChunkReader(data, spec, "eof").R())
 		return int(n64), err
 	}
 	return 0, fmt.Errorf("bad op %q", op)
